@@ -91,6 +91,37 @@ func (u *under) Write(b []byte) (int, error) {
 	return len(b), nil
 }
 
+// ReadFrom is the io.ReaderFrom fast path of a real net/http response: the writer takes the source over and reports
+// the source's error together with what it accepted (the implicit 200 header went out with the first byte).
+func (u *under) ReadFrom(src io.Reader) (int64, error) {
+	var n int64
+	buf := make([]byte, 64)
+	for {
+		m, err := src.Read(buf)
+		if m > 0 {
+			u.log = append(u.log, fmt.Sprintf("readfrom %d", m))
+			n += int64(m)
+		}
+		if err == io.EOF {
+			return n, nil
+		}
+		if err != nil {
+			return n, err
+		}
+	}
+}
+
+// failSrc delivers one chunk and then fails.
+type failSrc struct{ done bool }
+
+func (s *failSrc) Read(b []byte) (int, error) {
+	if !s.done {
+		s.done = true
+		return copy(b, "chunk"), nil
+	}
+	return 0, errors.New("verif: source failed midway")
+}
+
 // FlushError commits the implicit 200 header like net/http does.
 func (u *under) FlushError() error {
 	u.log = append(u.log, "flush")
@@ -146,6 +177,14 @@ func behaviours() []behaviour {
 		behaviour{"SetWriter(own recorder), then 418 with a body", 418, func(c fox.Context) { swap(c); _ = c.String(418, "teapot") }, ""},
 		behaviour{"SetWriter(own recorder), then redirect 302", 302, func(c fox.Context) { swap(c); _ = c.Redirect(302, "/moved") }, "/moved"},
 		behaviour{"SetWriter(own recorder), nothing written", 200, func(c fox.Context) { swap(c) }, ""},
+		behaviour{"fast-path copy that fails after a chunk, then http.Error 500", 200, func(c fox.Context) {
+			_, _ = io.Copy(c.Writer(), &failSrc{})
+			http.Error(c.Writer(), "late", 500)
+		}, ""},
+		behaviour{"fast-path copy of a whole source, then WriteHeader(404)", 200, func(c fox.Context) {
+			_, _ = io.Copy(c.Writer(), strings.NewReader("whole"))
+			c.Writer().WriteHeader(404)
+		}, ""},
 	)
 	return out
 }
